@@ -29,19 +29,33 @@ Lemma live_idem W sac t :
 Proof. apply coerce_idempotent_union_free, live_wf. Qed.
 
 Lemma live_nss_full W sac t :
-  scalar_based t = true -> forall v v', coerce live W sac t v = Ok v' -> nss no_pairs v v' = true.
+  scalar_based t = true -> forall v v', coerce live W sac t v = Ok v' -> nss live no_pairs v v' = true.
 Proof. apply coerce_nss; [apply live_wf|apply live_nss]. Qed.
 
 (* ---- the theorems are not vacuous: conversions do happen *)
 Example ex_convert :
-  coerce live W_all false (TList (TBase CFloat)) (VTuple [VInt 1; VBool true]) = Ok (VList [VFloat 1; VFloat 1]).
+  coerce live W_all false (TList (TBase CFloat)) (VTuple None [VInt None 1; VBool true]) = Ok (VList None [VFloat None 1; VFloat None 1]).
 Proof. vm_compute. reflexivity. Qed.
-Example ex_reject : coerce live W_all false (TList (TBase CInt)) (VStr "abc") = Err ETypeError.
+Example ex_reject : coerce live W_all false (TList (TBase CInt)) (VStr None "abc") = Err ETypeError.
 Proof. vm_compute. reflexivity. Qed.
 Example ex_nested :
   coerce live W_all true (TDict (TBase CPath) (TSet false (TBase CFloat)))
-         (VDict [(VStr "a//b", VList [VInt 1; VFloat 1; VInt 2])])
-  = Ok (VDict [(VPath "a/b", VSet false [VFloat 1; VFloat 2])]).
+         (VDict None [(VStr None "a//b", VList None [VInt None 1; VFloat None 1; VInt None 2])])
+  = Ok (VDict None [(VPath None "a/b", VSet None false [VFloat None 1; VFloat None 2])]).
+Proof. vm_compute. reflexivity. Qed.
+
+(* ---- instances of registered subclasses (KSub 0 = class StrSub(str), KSub 5 = class ListSub(list), KSub 12 =
+   numpy.int64): a str subclass is wrapped, not split, by a MultiInputObj field; a list subclass keeps its class;
+   a numpy.int64 is converted by int() *)
+Example ex_sub_str_multi :
+  coerce live W_all false (TMulti (TBase CStr)) (VStr (Some 0) "abc") = Ok (VList None [VStr (Some 0) "abc"]).
+Proof. vm_compute. reflexivity. Qed.
+Example ex_sub_list :
+  coerce live W_all false (TList (TBase CFloat)) (VList (Some 5) [VInt None 1])
+  = Ok (VList (Some 5) [VFloat None 1]).
+Proof. vm_compute. reflexivity. Qed.
+Example ex_numpy_int :
+  coerce live W_all false (TBase CInt) (VInt (Some 12) 3) = Ok (VInt None 3).
 Proof. vm_compute. reflexivity. Qed.
 
 (* ---- refutations on the live tables *)
@@ -51,17 +65,17 @@ Definition idem_statement : Prop :=
 Lemma idem_refuted : ~ idem_statement.
 Proof.
   intros H.
-  specialize (H W_all false (TUnion [TSet false (TBase CInt); TMulti (TBase CInt)]) (VSet true [VInt 1])
-                (VList [VInt 1]) ltac:(vm_compute; reflexivity)).
+  specialize (H W_all false (TUnion [TSet false (TBase CInt); TMulti (TBase CInt)]) (VSet None true [VInt None 1])
+                (VList None [VInt None 1]) ltac:(vm_compute; reflexivity)).
   vm_compute in H. discriminate.
 Qed.
 
 (* the conversions finding F20 was about are now rejected *)
-Example ex_str_to_set : coerce live W_all false (TSet false (TBase CStr)) (VStr "abc") = Err ETypeError.
+Example ex_str_to_set : coerce live W_all false (TSet false (TBase CStr)) (VStr None "abc") = Err ETypeError.
 Proof. vm_compute. reflexivity. Qed.
-Example ex_set_to_str : coerce live W_all false (TBase CStr) (VSet false [VStr "a"]) = Err ETypeError.
+Example ex_set_to_str : coerce live W_all false (TBase CStr) (VSet None false [VStr None "a"]) = Err ETypeError.
 Proof. vm_compute. reflexivity. Qed.
-Example ex_bytes_to_list : coerce live W_all false (TList (TBase CInt)) (VBytes "ab") = Err ETypeError.
+Example ex_bytes_to_list : coerce live W_all false (TList (TBase CInt)) (VBytes None "ab") = Err ETypeError.
 Proof. vm_compute. reflexivity. Qed.
-Example ex_multi_bytes : coerce live W_all false (TMulti (TBase CBytes)) (VBytes "ab") = Ok (VList [VBytes "ab"]).
+Example ex_multi_bytes : coerce live W_all false (TMulti (TBase CBytes)) (VBytes None "ab") = Ok (VList None [VBytes None "ab"]).
 Proof. vm_compute. reflexivity. Qed.
